@@ -1174,6 +1174,26 @@ RETCODE adfFileCreateNextBlock ( struct AdfFile * const file )
     }
     else {
         nSect = -1;
+        if ( file->nDataBlock > MAX_DATABLK ) {
+            /* appending needs the extension block that lists the last data block; sequential
+               access on OFS follows the data block chain and does not maintain it: load it */
+            const unsigned extIdx = ( file->nDataBlock - 1 - MAX_DATABLK ) / MAX_DATABLK;
+            const unsigned used   = ( file->nDataBlock - MAX_DATABLK ) - extIdx * MAX_DATABLK;
+            if ( file->currentExt == NULL ||
+                 file->posInExtBlk != used ||
+                 file->currentExt->highSeq != (int32_t) used )
+            {
+                if ( file->currentExt == NULL ) {
+                    file->currentExt = (struct bFileExtBlock*) malloc ( sizeof(struct bFileExtBlock) );
+                    if ( file->currentExt == NULL )
+                        return RC_MALLOC;
+                }
+                RETCODE rc = adfFileReadExtBlockN ( file, (int32_t) extIdx, file->currentExt );
+                if ( rc != RC_OK )
+                    return rc;
+                file->posInExtBlk = used;
+            }
+        }
         /* one more sector is needed for one file extension block */
         if ((file->nDataBlock%MAX_DATABLK)==0) {
             /* the extension block and the data block it will list are allocated
